@@ -214,7 +214,10 @@ class PlaceEngine(object):
                 for v in members:
                     group_of[v] = gid
         located_groups = set()
-        for _ in range(t.draw_small(5, 0.5)):
+        n_loc = t.draw_small(5, 0.5)
+        if t.draw(12) == 0:
+            n_loc = 3 * len(vs)          # (nearly) every vertex located
+        for _ in range(n_loc):
             if not vs:
                 break
             v = vs[t.draw(len(vs))]
@@ -426,6 +429,9 @@ class PlaceEngine(object):
                             chips = chips + [(x, y) for x in range(
                                 self.mv.width) for y in range(self.mv.height)
                                 if (x, y) in self.mv.dead_chips]
+                        if t.draw(3) == 0 and chips:
+                            # a chip listed twice
+                            chips = chips + chips[:1 + t.draw(2)]
                         kwargs["chip_order"] = chips
                         w.probe("custom_chip_order")
                 elif pname == "breadth_first" and t.draw(2):
